@@ -108,6 +108,19 @@ var c19Models = map[string]string{
     !table Depot:
         id <: int [~pk]
         city <: string(20)
+    !table Region:
+        regionId <: int [~pk]
+    !table Customer:
+        customerId <: int [~pk]
+        region <: Region.regionId
+    !table Order:
+        orderId <: int [~pk]
+        region <: Region.regionId
+        customer <: Customer.customerId
+        depot <: Depot.id
+    !table Pack:
+        packId <: int [~pk]
+        region <: Region.regionId
     /items/{id <: int}:
         GET ?limit=int?&must=string&third=bool:
             Store <- Load
